@@ -262,6 +262,10 @@ func (rm *Manager) findRelatedParents(relatedSlice ...*unstructured.Unstructured
 			}
 
 			for _, relatedRule := range customizeHookResponse.RelatedResourceRules {
+				if relatedRule == nil {
+					// A null entry in the hook's relatedResources selects nothing.
+					continue
+				}
 				for _, related := range relatedSlice {
 					parentGroup, _ := schema.ParseGroupVersion(parent.GetAPIVersion())
 					parentResource := rm.parentKinds.Get(schema.GroupKind{Group: parentGroup.Group, Kind: parent.GetKind()})
@@ -384,6 +388,10 @@ func (rm *Manager) GetRelatedObjects(parent *unstructured.Unstructured) (commonv
 	}
 
 	for _, relatedRule := range customizeHookResponse.RelatedResourceRules {
+		if relatedRule == nil {
+			// A null entry in the hook's relatedResources selects nothing.
+			continue
+		}
 		relatedClient, informer, err := rm.getRelatedClient(relatedRule.APIVersion, relatedRule.Resource)
 		if err != nil {
 			return nil, err
